@@ -33,13 +33,13 @@ type Line struct {
 
 // Frame is one stdio token.
 type Frame struct {
-	K    string          `json:"k"` // ws|garbage|truncated|value|barrier
-	JSON json.RawMessage `json:"json,omitempty"`
-	Txt  string          `json:"txt"`
-	Pad  int             `json:"pad,omitempty"`
-	Wait int             `json:"wait,omitempty"` // barrier: the call (index) whose return releases it
-	NoNL bool            `json:"nonl,omitempty"` // followed by a blank instead of a newline
-	Cat  string          `json:"cat,omitempty"`
+	K    string            `json:"k"` // ws|garbage|truncated|value|spread|packed|barrier
+	JSON json.RawMessage   `json:"json,omitempty"`
+	Vals []json.RawMessage `json:"vals,omitempty"` // packed: the values that share the line
+	Txt  string            `json:"txt"`
+	Pad  int               `json:"pad,omitempty"`
+	Wait int               `json:"wait,omitempty"` // barrier: the call (index) whose return releases it
+	Cat  string            `json:"cat,omitempty"`
 }
 
 type Case struct {
@@ -695,7 +695,38 @@ func val(text string, pad int, cat string) Frame {
 	if !json.Valid([]byte(full)) {
 		panic("generator: not a JSON value: " + text)
 	}
+	if strings.Contains(text, "\n") {
+		panic("generator: a value frame is one line: " + text)
+	}
 	return Frame{K: "value", Txt: text, Pad: pad, JSON: json.RawMessage(collapse(text)), Cat: cat}
+}
+
+// spread: one JSON value printed over several lines none of which is a JSON value by itself
+func spread(text, compactText, cat string) Frame {
+	if !json.Valid([]byte(text)) || !strings.Contains(text, "\n") {
+		panic("generator: not a multi-line JSON value: " + text)
+	}
+	for _, l := range strings.Split(text, "\n") {
+		if strings.TrimSpace(l) != "" && json.Valid([]byte(l)) {
+			panic("generator: a line of a spread value is a JSON value: " + l)
+		}
+	}
+	return Frame{K: "spread", Txt: text, JSON: json.RawMessage(compactText), Cat: cat}
+}
+
+// packed: several JSON values on one line
+func packed(cat string, texts ...string) Frame {
+	f := Frame{K: "packed", Txt: strings.Join(texts, " "), Cat: cat}
+	for _, t := range texts {
+		if !json.Valid([]byte(t)) || strings.Contains(t, "\n") {
+			panic("generator: not a one-line JSON value: " + t)
+		}
+		f.Vals = append(f.Vals, json.RawMessage(t))
+	}
+	if len(texts) < 2 || json.Valid([]byte(f.Txt)) {
+		panic("generator: packed needs several values")
+	}
+	return f
 }
 
 func garbageFrame(text string) Frame {
@@ -763,7 +794,8 @@ func stdioAtom(arm int, r *rand.Rand, ids []int, k *int) []Frame {
 	case 21:
 		return []Frame{val(resultPadText(id, fmt.Sprint("f", *k)), 70*1024, "giant-answer")}
 	case 22:
-		return []Frame{val(fmt.Sprintf("{\n  \"jsonrpc\": \"2.0\",\n\n  \"id\": %d,\n  \"result\": {\"tools\": [], \"nextCursor\": \"pp%d\"}\n}", id, *k), 0, "pretty-printed-answer")}
+		return []Frame{spread(fmt.Sprintf("{\n  \"jsonrpc\": \"2.0\",\n\n  \"id\": %d,\n  \"result\": {\"tools\": [], \"nextCursor\": \"pp%d\"}\n}", id, *k),
+			resultText(id, fmt.Sprint("pp", *k)), "pretty-printed-answer")}
 	default:
 		return []Frame{val(`{}`, 0, "empty-object")}
 	}
@@ -820,9 +852,13 @@ func (g *gen) stdioCases(thorough bool) {
 		return []Frame{ans(ids[0], "first"), {K: "barrier", Wait: 0, Cat: "barrier"}, ans(ids[0], "second"), ans(ids[1], "b")}
 	})
 	add("two-values-one-line", 2, false, func(ids []int) []Frame {
-		a := ans(ids[0], "a")
-		a.NoNL = true
-		return []Frame{a, ans(ids[1], "b")}
+		return []Frame{packed("answers-on-one-line", resultText(ids[0], "a"), resultText(ids[1], "b")), ans(ids[1], "late")}
+	})
+	add("packed-notification", 1, false, func(ids []int) []Frame {
+		return []Frame{packed("answers-on-one-line", resultText(9999, "u"), notifText(3)), ans(ids[0], "a")}
+	})
+	add("pretty-printed-notification", 1, false, func(ids []int) []Frame {
+		return []Frame{spread("{\"jsonrpc\": \"2.0\",\n \"method\": \"verif/n\",\n \"params\": {\"k\": 5}}", notifText(5), "pretty-printed-notification"), ans(ids[0], "a")}
 	})
 	add("clean-exit", 1, true, func(ids []int) []Frame { return []Frame{ans(ids[0], "a")} })
 	add("truncated-eof", 1, true, func(ids []int) []Frame {
@@ -846,7 +882,7 @@ func (g *gen) stdioCases(thorough bool) {
 				var m0 struct {
 					ID any `json:"id"`
 				}
-				if a[0].K == "value" && json.Unmarshal(a[0].JSON, &m0) == nil {
+				if (a[0].K == "value" || a[0].K == "spread") && json.Unmarshal(a[0].JSON, &m0) == nil {
 					if f, ok := m0.ID.(float64); ok && f > 0 && f < 100 {
 						if answered[int(f)] {
 							continue
